@@ -90,6 +90,7 @@ def _worker(inq, outq):
         outq.put((qid, res))
 
 
+MAX_UNKNOWN = int(os.environ.get("VERIF_MAX_UNKNOWN", "64"))
 MEM_CAP_MB = int(os.environ.get("VERIF_WORKER_MEM_MB", "6000"))
 
 
@@ -120,6 +121,7 @@ class Farm:
         reported as 'skipped' (inconclusive): a broken tree need not be explored exhaustively."""
         results = {}
         nsat = 0
+        nunk = 0
         expect = {q["id"]: q.get("expect", "unsat") for q in queries}
         pending = list(queries)[::-1]
         n = min(self.n, max(1, len(pending)))
@@ -146,6 +148,14 @@ class Farm:
                     qid = None
                 if qid is not None:
                     results[qid] = res
+                    if res.get("status") in ("unknown", "timeout"):
+                        nunk += 1
+                    if nunk >= MAX_UNKNOWN and pending:
+                        # a tree on which this many queries time out is not going to be decided by running the rest as well
+                        for q in pending:
+                            results[q["id"]] = {"status": "skipped", "trivial": False, "t": 0.0, "reason": f"not started: {nunk} queries already timed out"}
+                        done += len(pending)
+                        pending = []
                     if res.get("status") == "sat" and expect.get(qid) == "unsat":
                         nsat += 1
                         if max_sat is not None and nsat >= max_sat and pending:
@@ -167,6 +177,7 @@ class Farm:
                     over = _rss_mb(w["p"].pid) > MEM_CAP_MB
                 if over or time.time() - w["t0"] > hard or not w["p"].is_alive():
                     results[w["job"]["id"]] = {"status": "timeout", "trivial": False, "t": time.time() - w["t0"], "reason": f"memory cap {MEM_CAP_MB} MB" if over else "hard deadline / worker died"}
+                    nunk += 1
                     self.cpu += time.time() - w["t0"]
                     try:
                         w["p"].kill()
